@@ -2,7 +2,7 @@
     commit discipline of the current tree is the one the model is written from. *)
 From Coq Require Import String List Bool ZArith.
 Import ListNotations.
-Require Import Nib.C03.Model Nib.C03.Ref Nib.C03.Spec Nib.C03.Discipline Nib.C03.Proofs.
+Require Import Nib.C03.Model Nib.C03.Ref Nib.C03.Spec Nib.C03.Msg Nib.C03.Discipline Nib.C03.Proofs.
 Require Import Nib.Gen.C03Facts.
 Open Scope string_scope.
 
@@ -73,3 +73,19 @@ Theorem C03_holds_for_current_tree :
     weq (world_of (fst (run_txs empty_keeper txs))) (fst (ref_txs empty_world txs)).
 Proof. split; [exact (conj C03_facts_entry_types C03_facts_match_model)|exact history_from_empty_world]. Qed.
 Print Assumptions C03_holds_for_current_tree.
+
+(** Keeper.EthereumTx: the per-tx StateDB published on the bank keeper is forgotten on every return
+    path (the clear is deferred before any return that follows its acquisition) — the value the
+    message-layer model [deliver] is instantiated with *)
+Theorem C03_facts_ethereumtx_clears_statedb :
+  c03_ethereumtx_obtains_tx_statedb = true /\ c03_ethereumtx_clears_on_every_return = true.
+Proof. vm_compute. split; reflexivity. Qed.
+
+(** the message-history theorem for the discipline just extracted *)
+Theorem C03_messages_hold_for_current_tree :
+  forall ms k w, kwf k -> weq (world_of k) w -> msgs_wf w ms ->
+  let r := deliver_hist c03_ethereumtx_clears_on_every_return {| ms_blk := k; ms_ptr := None |} ms in
+  snd r = snd (ref_hist w ms) /\ weq (world_of (ms_blk (fst r))) (fst (ref_hist w ms)) /\
+  kwf (ms_blk (fst r)) /\ ms_ptr (fst r) = None.
+Proof. exact messages_equal_reference. Qed.
+Print Assumptions C03_messages_hold_for_current_tree.
